@@ -385,7 +385,7 @@ def simpCall : Nat → Expr → String → ExprList → M Expr
     else if fn == "float" then do
       let a ← arg0
       match litVal? a with
-      | some (.str _) => .error .value
+      | some (.str sv) => do let v ← pyFloatOfStr sv; litNumber v
       | some v => (match v.toRat? with | some q => litNumber (.flt q) | none => litNumber v)
       | none => pure call
     else if fn == "str" then do
